@@ -1,42 +1,11 @@
 /-
 C04 — tagged collections and decorators are applied as documented.
 -/
+import GontainerModel.Lemmas.C04Aux
 import GontainerModel.Model.Runtime
 import GontainerModel.Lemmas.Merge
 namespace GM.C04
 open GM
-
-/-- the order `GetTaggedBy` uses: priority descending, then service name ascending -/
-def tagLe (a b : String × Int) : Bool := if a.2 = b.2 then AMap.strLe a.1 b.1 else decide (a.2 > b.2)
-
-theorem tagLe_trans (a b c : String × Int) : tagLe a b = true → tagLe b c = true → tagLe a c = true := by
-  unfold tagLe
-  intro h1 h2
-  by_cases e1 : a.2 = b.2
-  · by_cases e2 : b.2 = c.2
-    · have e3 : a.2 = c.2 := e1.trans e2
-      simp only [e1, e2, e3, ↓reduceIte] at h1 h2 ⊢
-      exact AMap.strLe_trans _ _ _ h1 h2
-    · have e3 : ¬ a.2 = c.2 := fun e => e2 (e1.symm.trans e)
-      simp only [e2, ↓reduceIte, decide_eq_true_eq] at h2
-      simp only [e3, ↓reduceIte, decide_eq_true_eq]
-      omega
-  · simp only [e1, ↓reduceIte, decide_eq_true_eq] at h1
-    by_cases e2 : b.2 = c.2
-    · have e3 : ¬ a.2 = c.2 := fun e => e1 (e.trans e2.symm)
-      simp only [e3, ↓reduceIte, decide_eq_true_eq]
-      omega
-    · simp only [e2, ↓reduceIte, decide_eq_true_eq] at h2
-      have e3 : ¬ a.2 = c.2 := by omega
-      simp only [e3, ↓reduceIte, decide_eq_true_eq]
-      omega
-
-theorem tagLe_total (a b : String × Int) : (tagLe a b || tagLe b a) = true := by
-  unfold tagLe
-  by_cases h : a.2 = b.2
-  · simp [h]; exact by simpa using AMap.strLe_total a.1 b.1
-  · have h' : ¬ b.2 = a.2 := fun e => h e.symm
-    simp [h, h']; omega
 
 def carriers (o : Output.Output) (tag : String) : List (String × Int) :=
   o.services.filterMap fun s => (s.tags.find? (·.name == tag)).map fun t => (s.name, t.priority)
@@ -85,20 +54,6 @@ theorem decorators_in_declaration_order (o : Output.Output) (s : Output.Service)
     ∀ d, d ∈ decoratorsFor o s ↔ d ∈ o.decorators ∧ (s.tags.any (·.name == d.tag)) = true := by
   unfold decoratorsFor
   exact ⟨List.filter_sublist, fun d => by simp [List.mem_filter]⟩
-
-theorem compileDecorators_fold (fns : List Token.FnDef) (ds : List Input.Decorator)
-    (st : Imports.St) (out : List Output.Decorator) (errs : Errs) (j : Nat) :
-    (ds.foldl (Compile.compileDecoratorsStep fns) (st, out, errs, j)).2.1.map (fun d => (d.tag, d.raw))
-      = out.map (fun d => (d.tag, d.raw)) ++ ds.map (fun d => (d.tag, d.decorator)) := by
-  induction ds generalizing st out errs j with
-  | nil => simp
-  | cons d ds ih =>
-    simp only [List.foldl_cons]
-    have hs : ∃ st' x e, Compile.compileDecoratorsStep fns (st, out, errs, j) d = (st', out ++ [x], e, j + 1) ∧
-        x.tag = d.tag ∧ x.raw = d.decorator := ⟨_, _, _, rfl, rfl, rfl⟩
-    obtain ⟨st', x, e, hs, h1, h2⟩ := hs
-    rw [hs, ih]
-    simp [h1, h2]
 
 /-- compilation keeps the decorator list as declared: same length, same order, same tags and
 functions — so file order (C09: decorators of merged files are concatenated in file order) is the
